@@ -44,4 +44,6 @@ func runC11(r *Report) {
 	}
 	r.Note("errflow scope: %d module functions reachable from %d roots", len(scope), len(roots))
 	c11FlagRules(r)
+	ruleWriteCount(r)
+	ruleInputsValidated(r)
 }
